@@ -600,6 +600,10 @@ func main() {
 	if !supervise.IsChild() {
 		err := supervise.Run(len(cases), *out, 60*time.Second, func(idx int, why string) interface{} {
 			sig := "C14/crash"
+			if strings.HasPrefix(why, "no progress") {
+				// nothing in the chain waits on anything but the scripted hook process: a stall is the sandbox's
+				return Result{Case: idx, OK: false, Sig: "harness/hang", Detail: why}
+			}
 			if idx < len(cases) {
 				sig = fmt.Sprintf("C14/crash/%s/%s", cases[idx].Req.Pclass, cases[idx].Req.Body)
 			}
